@@ -90,6 +90,9 @@ type Ctx struct {
 	// History of the current case (rendered operations), for replay files.
 	Hist    []string
 	Backend string
+	// CapacityHit: an operation of this case was refused by the store for its size (badger's transaction limit);
+	// the case ends there as inconclusive
+	CapacityHit bool
 }
 
 func (c *Ctx) Thorough() bool { return c.Tier == "thorough" }
